@@ -3,6 +3,7 @@ package checks
 import (
 	"fmt"
 	"math/rand"
+	"runtime"
 	"sync"
 	"sync/atomic"
 
@@ -160,6 +161,12 @@ func runC06(c *harness.Ctx, cc *concCorpus, opsPerG int) {
 	r := c.Rand()
 	nG := []int{2, 4, 8, 16}[c.K%4]
 	c.Cover(fmt.Sprintf("g:%d", nG))
+	// fewer Ps than goroutines forces time-slicing inside library calls, more Ps true parallelism
+	procs := []int{0, 2, 4, 1}[(c.K/4)%4]
+	if procs > 0 {
+		defer runtime.GOMAXPROCS(runtime.GOMAXPROCS(procs))
+	}
+	c.Cover(fmt.Sprintf("gomaxprocs:%d", procs))
 	c.NonTrivial(fmt.Sprintf("run g=%d seed=%d k=%d race=%v", nG, c.Seed, c.K, harness.RaceEnabled))
 	var wg sync.WaitGroup
 	var total int64
